@@ -5,7 +5,7 @@
 Require Extraction.
 Require Import ExtrOcamlBasic.
 From Coq Require Import List NArith ZArith.
-From SDB Require Import Base.Bytes Base.Assoc Params Model.Codec Model.Lock Model.Page Model.Pool Model.SqlRef Model.Catalog Model.Query Model.Wal Model.LogCodec Model.WalTrace Model.Sched Model.ReqMgr Model.Engine Model.IndexWrap Model.Trace Model.Join Model.SkipList Model.Startup Model.HashTable Model.Heap Model.TupleCodec Model.CatalogRows.
+From SDB Require Import Base.Bytes Base.Assoc Params Model.Codec Model.Lock Model.Page Model.Pool Model.SqlRef Model.Catalog Model.Query Model.Wal Model.LogCodec Model.WalTrace Model.Sched Model.ReqMgr Model.Engine Model.IndexWrap Model.Trace Model.Join Model.SkipList Model.Startup Model.HashTable Model.Heap Model.TupleCodec Model.CatalogRows Model.TmpPage Model.WalLink.
 
 Extraction Blacklist List String Int.
 
@@ -57,4 +57,8 @@ Extraction "sdbmodel.ml"
   tc_encode_row tc_tuple_size tc_decode_col tc_decode_row tc_get_value_in_bytes tc_row_wf tc_row_ok tc_readback
   (* M11r catalog persistence: table / columns catalog heaps, reload (C10) *)
   cr_boot cr_step cr_run cr_lookup_oid cr_lookup_name cr_refused cr_idx_legal cr_dump cr_oids cr_names cr_names_distinct cr_tabs_wf cr_reload cr_persist_t cr_persist_c cr_create_fits
+  (* M9t temporary tuple page of the hash join (C11) *)
+  tp_init tp_init_page tp_free tp_set_free tp_page_id tp_insert_go tp_insert_weak_go tp_insert tp_get tp_get_go tp_insert_all tp_inserts tp_last_loc
+  (* M6l page-link write-ahead discipline (C08) *)
+  link_ok link_first_violation link_checked
   N.of_nat N.to_nat Z.of_N Z.to_N Z.compare N.compare.
